@@ -16,7 +16,7 @@ from .round4 import _atoms
 from .round5 import _guard_in_loop_is
 
 _FRESH_CALLS = {"dict", "list", "set", "OrderedDict", "defaultdict", "OffsetMapping"}
-_MUTATORS = {"update", "append", "extend", "add", "setdefault", "insert", "pop", "remove", "discard", "clear", "__setitem__"}
+_MUTATORS = {"update", "append", "extend", "add", "setdefault", "insert", "__setitem__"}   # adding ones: removing from a fresh empty container is a no-op
 
 
 def _is_fresh_container(e: ast.AST) -> bool:
@@ -48,7 +48,7 @@ def _mutated(fn: ast.AST, name: str) -> Optional[ast.AST]:
     for n in walk_no_nested(fn):
         if isinstance(n, ast.Call) and isinstance(n.func, ast.Attribute) and n.func.attr in _MUTATORS and isinstance(n.func.value, ast.Name) and n.func.value.id == name:
             return n
-        if isinstance(n, ast.Subscript) and isinstance(n.ctx, (ast.Store, ast.Del)) and isinstance(n.value, ast.Name) and n.value.id == name:
+        if isinstance(n, ast.Subscript) and isinstance(n.ctx, ast.Store) and isinstance(n.value, ast.Name) and n.value.id == name:
             return n
     return None
 
@@ -621,7 +621,7 @@ def gen_swallow(ctx: Ctx):
                          f"the handler only calls `{src(h.body[0])[:60] if h.body else 'nothing'}` and falls through: the failed operation (e.g. a patch that does not assemble) is treated as done and the "
                          "rewrite continues with a half-built result", key=f"{q}::swallow::{ty}")
     ctx.ok(ctx.repo.mod("rewriting"), None, f"{n} exception handlers examined", nontrivial=False, key="GEN.swallow::scan")
-    if n < 8:
+    if n < 5:
         raise AnalysisError(f"only {n} exception handlers found")
 
 
@@ -681,9 +681,15 @@ def gen_missingreturn(ctx: Ctx):
                 continue
         n += 1
         lin = linear(fn)
-        if satisfiable(lin.exit_guard):
+        # typing.assert_never(...) does not return: paths through it do not reach the end
+        from ..astx import f_and, f_not
+        eg = lin.exit_guard
+        for g in lin.stmts:
+            if isinstance(g.node, ast.Expr) and isinstance(g.node.value, ast.Call) and src(g.node.value.func) in ("assert_never", "typing.assert_never") and not g.loops:
+                eg = f_and(eg, f_not(g.guard))
+        if satisfiable(eg):
             ctx.fail(fi, fn.body[-1], f"`{q.split('.')[-1]}` can fall off its end although it is declared `-> {r}`",
-                     f"under `{f_show(lin.exit_guard)[:100]}` no return statement is reached and the caller receives None instead of a `{r}`: the first use (`.sizes`, iteration, arithmetic) fails "
+                     f"under `{f_show(eg)[:100]}` no return statement is reached and the caller receives None instead of a `{r}`: the first use (`.sizes`, iteration, arithmetic) fails "
                      "far from the cause, or None is silently taken as 'no'/'empty'", key=f"{q}::missing-return")
     ctx.ok(ctx.repo.mod("abi"), None, f"{n} annotated non-Optional functions end in return/raise on every path", nontrivial=False, key="GEN.missingreturn::scan")
     if n < 150:
